@@ -492,6 +492,56 @@ def split_case(res, rng, scen):
     return c
 
 
+def remined_case(res, rng):
+    """A transaction that is confirmed AGAIN under another tx number: block A = [coinbase, T] is indexed and
+    an output of T is looked up (a mempool transaction spends it); the daemon reorganises to B1 = [coinbase, E],
+    B2 = [coinbase, T] - T is valid on both branches, as every transaction returned to the mempool by a reorg is;
+    then every output of T is looked up (another mempool transaction spends a sibling output).  Anything the
+    index remembers per transaction hash across the reorganisation shows here.  Same DB object throughout."""
+    GEN = (chaingen.ZERO, chaingen.MINUS_1)
+    c = Case(res, rng, 1000, rng.choice([3, 200]), None)
+    try:
+        c.open()
+        tip = None
+        for n in range(rng.randrange(1, 3)):
+            tip = c.gen.new_block(tip, max_txs=rng.choice([0, 2]))
+            c.advance(tip, n)
+        h = len(c.chain)
+        scripts = NORMAL_SCRIPTS[:6]
+        T = chaingen.GTx([GEN], [(rng.randrange(1, 100_000), rng.choice(scripts)) for _ in range(3)],
+                         nonce=rng.getrandbits(64))
+        E = chaingen.GTx([GEN], [(rng.randrange(1, 1000), rng.choice(scripts))], nonce=rng.getrandbits(64))
+        A = c.gen.block_with(tip, [T] if rng.random() < 0.5 else [E, T])
+        c.advance(A, h)
+        c.flush(True)
+        first = rng.randrange(3)
+        c.emit(f'Q_LOOKUP {be(T.txid)} {first}', c.real.q_lookup(T.txid, first), 'q')
+        c.backup()
+        B1 = c.gen.block_with(tip, [chaingen.GTx([GEN], [(5, rng.choice(scripts))], nonce=rng.getrandbits(64)),
+                                    chaingen.GTx([GEN], [(6, rng.choice(scripts))], nonce=rng.getrandbits(64))])
+        c.advance(B1, h)
+        B2 = c.gen.block_with(B1, [T])
+        c.advance(B2, h + 1)
+        if rng.random() < 0.7:
+            c.flush(True)
+        for idx in rng.sample(range(3), 3):
+            c.emit(f'Q_LOOKUP {be(T.txid)} {idx}', c.real.q_lookup(T.txid, idx), 'q')
+        if c.flush(True) == 'ok':
+            c.spec_check()
+    finally:
+        c.finish()
+    return c
+
+
+def remined_probe(res, tier, seed):
+    for i in range(6 if tier == 'quick' else 60):
+        if common.out_of_time():
+            break
+        c = remined_case(res, rng_for(seed, 'index-remined', i))
+        res.bump('remined_transaction_cases')
+        compare(res, c, f're-mined transaction {i} (seed {seed})')
+
+
 def split_lookup_probe(res, tier, seed):
     """DB.lookup_utxos is two thread jobs with a suspension point in between; the block processor may
     do anything there.  Directed cases (own RNG streams: the generated cases of `run` are unchanged)."""
@@ -515,6 +565,7 @@ def run(tier, seed):
                 'case contains a flush or back-out and at least one specification checkpoint')
     tall_chain_probe(res, seed)
     split_lookup_probe(res, tier, seed)
+    remined_probe(res, tier, seed)
     groups = collision_groups(seed, tier)
     n_cases = 60 if tier == 'quick' else 1500
     for i in range(n_cases):
